@@ -36,6 +36,28 @@ def renumber_acs(inst, ids):
     return inst
 
 
+def spread_zones(inst, gaps):
+    """Leave `gaps[i]` unused zone / group numbers in front of the zones of the i-th
+    air-conditioner (zone numbers need not be contiguous from 0)."""
+    shift = 0
+    mapping = {}
+    for a, g in zip(inst["acs"], gaps):
+        shift += g
+        ab = a["ability"]
+        for z in range(ab["start"], ab["start"] + ab["count"]):
+            mapping[z] = z + shift
+        ab["start"] += shift
+        if ab.get("groups") is not None:
+            ab["groups"] = {mapping.get(z, z) for z in ab["groups"]}
+    for z in inst["zones"]:
+        new = mapping.get(z["id"], z["id"])
+        z["id"] = new
+        for key in ("group", "zone"):
+            if key in z["status"]:
+                z["status"][key] = new
+    return inst
+
+
 def default_installation(gen, n_acs=1, zones_per_ac=(2,), new_format=True, names=None):
     """A plain installation.  zones_per_ac: contiguous partition."""
     inst = {"gen": gen, "version": (False, ["1.2.3"] if gen == 4 else ["1.0.3", "1.0.3"]),
@@ -232,6 +254,10 @@ class SimConsole:
         if self.knobs.names_order is not None:
             # every entry carries its own zone number: any order is the same answer
             zs = self.knobs.names_order(zs)
+        elif self.inst.get("names_key") is not None:
+            # (an installation that lists its zones in some fixed other order)
+            k = self.inst["names_key"]
+            zs = sorted(zs, key=lambda z: (z["id"] * k) % 17)
         if self.gen == 4:
             body = b"".join(bytes([z["id"]]) + R._name_fixed(z["name"], 8) for z in zs)
             return self.f_ext(0xFF12, body, pid)
